@@ -44,7 +44,7 @@ def _deps(expr: ast.AST, body_assigns: dict, seen=None) -> set:
     return out
 
 
-def _cond_arms_ok(expr: ast.AST, body_assigns: dict, loop_vars: set, iter_txt: str) -> bool:
+def _cond_arms_ok(expr: ast.AST, body_assigns: dict, loop_vars: set, iter_txt: str, fn_assigns: dict = None) -> bool:
     """Every IfExp on the dependence path: an arm that does not depend on the loop variable is allowed only
     under a len(<iterable>) test."""
     for n in ast.walk(expr):
@@ -52,12 +52,17 @@ def _cond_arms_ok(expr: ast.AST, body_assigns: dict, loop_vars: set, iter_txt: s
             arms = [n.body, n.orelse]
             dep = [bool(_deps(a, body_assigns, set()) & loop_vars) for a in arms]
             if not all(dep):
-                if f'len({iter_txt})' not in ast.unparse(n.test).replace(' ', ''):
+                # the test, with local names replaced by their (single) definitions anywhere in the function
+                txts = [ast.unparse(n.test).replace(' ', '')]
+                for x in ast.walk(n.test):
+                    if isinstance(x, ast.Name) and fn_assigns and len(fn_assigns.get(x.id, ())) == 1:
+                        txts.append(ast.unparse(fn_assigns[x.id][0]).replace(' ', ''))
+                if not any(f'len({iter_txt})' in t for t in txts):
                     return False
         if isinstance(n, ast.Name):
             for v in body_assigns.get(n.id, []):
                 if v is not expr and not _cond_arms_ok(v, {k: [x for x in vs if x is not v] for k, vs in body_assigns.items()},
-                                                       loop_vars, iter_txt):
+                                                       loop_vars, iter_txt, fn_assigns):
                     return False
     return True
 
@@ -103,7 +108,11 @@ def _r191(ctx: Ctx) -> None:
                         loop_vars.add(s.target.id)          # counter updated in the loop
                 d = _deps(node.args[0], body_assigns)
                 iter_txt = ast.unparse(loop.iter).replace(' ', '')
-                ok = bool(d & loop_vars) and _cond_arms_ok(node.args[0], body_assigns, loop_vars, iter_txt)
+                fn_assigns: dict = {}
+                for s_ in walk_no_nested(fn):
+                    if isinstance(s_, ast.Assign) and len(s_.targets) == 1 and isinstance(s_.targets[0], ast.Name):
+                        fn_assigns.setdefault(s_.targets[0].id, []).append(s_.value)
+                ok = bool(d & loop_vars) and _cond_arms_ok(node.args[0], body_assigns, loop_vars, iter_txt, fn_assigns)
                 ctx.ob('R19.1', site_of(mi, node), f'{fn.name}: file written in the loop over {ast.unparse(loop.iter)} has a '
                                                    f'path depending on the loop variable', ok,
                        f'{norm_stmt(node)} inside `for {ast.unparse(loop.target)} in {ast.unparse(loop.iter)}`: the path '
